@@ -153,6 +153,10 @@ func toIdentRef(bases []*meta.Identity, v interface{}) (val.IdentRef, error) {
 			// RFC7950 Sec 9.10.2 the value is an identity derived from the base, not the base
 			return empty, fmt.Errorf("identity '%s' is the base of the identityref, not derived from it", x)
 		}
+		// and with several bases, derived from every one of them
+		if meta.FindIdentity(base.DerivedDirect(), x) == nil {
+			return empty, fmt.Errorf("identity '%s' is not derived from base '%s'", x, base.Ident())
+		}
 	}
 	if module != "" {
 		// module name as in JSON or its prefix as in XML
